@@ -142,4 +142,640 @@ theorem acceptedSigners_congr {O : Oracle} {g : GSet} {d : Bytes} {es es' : List
 theorem hasMsg_append (es es' : List Event) : hasMsg (es ++ es') = (hasMsg es || hasMsg es') := by
   simp [hasMsg]
 
+/-! ## the two phases -/
+
+/-- Before the publication: the entry for `d` (or the fresh one, if there is none yet) reflects exactly the events
+`pre` handled so far. -/
+structure Pre (O : Oracle) (g : GSet) (m : Msg) (d : Bytes) (pre : List Event) (s : PState) : Prop where
+  gs : s.gs = some g
+  db : s.db.lookup (vaaOfMsg g.index m).body.id = none
+  sub : ∀ now, (entryOrFresh s d now).submitted = false
+  recv : ∀ now, ∀ p ∈ (entryOrFresh s d now).signatures, O.recover d p.2 = some p.1
+  keys : ∀ now a, ((entryOrFresh s d now).signatures.lookup a).isSome = true ↔ a ∈ accAddrs O g d pre
+  our : ∀ now, (entryOrFresh s d now).ourVAA = if hasMsg pre = true then some (vaaOfMsg g.index m) else none
+  snap : ∀ now, (entryOrFresh s d now).gs = if hasMsg pre = true then some g else none
+
+/-- After the publication: the entry for `d` is marked submitted. -/
+def Post (d : Bytes) (s : PState) : Prop :=
+  ∃ st, s.agg.lookup d = some st ∧ st.submitted = true ∧ ∀ p ∈ st.signatures, p.2.length = 65
+
+theorem entryOrFresh_insert (s : PState) (d : Bytes) (st : VState) (now : Int) :
+    entryOrFresh { s with agg := alInsert d st s.agg } d now = st := by
+  unfold entryOrFresh
+  simp only
+  rw [lookup_alInsert_self]
+
+theorem pre_init {O : Oracle} {g : GSet} {m : Msg} {d : Bytes} {s : PState} (hgs : s.gs = some g)
+    (hagg : s.agg.lookup d = none) (hdb : s.db.lookup (vaaOfMsg g.index m).body.id = none) :
+    Pre O g m d [] s := by
+  have he : ∀ now, entryOrFresh s d now = { firstObserved := now } := by
+    intro now; unfold entryOrFresh; rw [hagg]
+  refine ⟨hgs, hdb, ?_, ?_, ?_, ?_, ?_⟩
+  · intro now; rw [he]
+  · intro now p hp; rw [he] at hp; simp at hp
+  · intro now a; rw [he]; simp [accAddrs]
+  · intro now; rw [he]; simp [hasMsg]
+  · intro now; rw [he]; simp [hasMsg]
+
+theorem pre_insert {O : Oracle} {g : GSet} {m : Msg} {d : Bytes} {pre' : List Event} {s : PState}
+    (hgs : s.gs = some g) (hdb : s.db.lookup (vaaOfMsg g.index m).body.id = none) (st : VState)
+    (h1 : st.submitted = false) (h2 : ∀ p ∈ st.signatures, O.recover d p.2 = some p.1)
+    (h3 : ∀ a, (st.signatures.lookup a).isSome = true ↔ a ∈ accAddrs O g d pre')
+    (h4 : st.ourVAA = if hasMsg pre' = true then some (vaaOfMsg g.index m) else none)
+    (h5 : st.gs = if hasMsg pre' = true then some g else none) :
+    Pre O g m d pre' { s with agg := alInsert d st s.agg } := by
+  refine ⟨hgs, hdb, ?_, ?_, ?_, ?_, ?_⟩
+  · intro now; rw [entryOrFresh_insert]; exact h1
+  · intro now; rw [entryOrFresh_insert]; exact h2
+  · intro now; rw [entryOrFresh_insert]; exact h3
+  · intro now; rw [entryOrFresh_insert]; exact h4
+  · intro now; rw [entryOrFresh_insert]; exact h5
+
+theorem pre_gate {O : Oracle} {g : GSet} {m : Msg} {d : Bytes} {pre : List Event} {s : PState}
+    (hP : Pre O g m d pre s) : gateSet s d = some g := by
+  unfold gateSet
+  cases hl : s.agg.lookup d with
+  | none => exact hP.gs
+  | some st =>
+    have h := hP.snap 0
+    unfold entryOrFresh at h
+    rw [hl] at h
+    simp only at h ⊢
+    rw [h]
+    cases hasMsg pre
+    · simp [hP.gs]
+    · simp
+
+/-- A chain message before the publication: signs, files the own VAA with the current set as snapshot, keeps the
+parked signatures, publishes nothing. -/
+theorem pre_message {O : Oracle} (hO : OracleOk O) (cfg : Config) {g : GSet} {m : Msg} {d : Bytes}
+    (hd : d = O.digestOf (vaaOfMsg g.index m).body)
+    (hng : ¬ (m.emitter = cfg.govEmitter ∧ m.emitterChain = cfg.govChain))
+    {pre : List Event} {s : PState} (hP : Pre O g m d pre s) (now : Int) :
+    ∃ s' outs, step O cfg s (.message m now) = .ok s' outs ∧ (∀ b, Out.vaa b ∉ outs) ∧
+      Pre O g m d (pre ++ [.message m now]) s' := by
+  subst hd
+  have hs := hO.sign_ok (O.digestOf (vaaOfMsg g.index m).body)
+  cases hsig : O.sign (O.digestOf (vaaOfMsg g.index m).body) with
+  | none => rw [hsig] at hs; simp at hs
+  | some sig =>
+    refine ⟨(broadcastSignature cfg s (O.digestOf (vaaOfMsg g.index m).body) (vaaOfMsg g.index m) sig m.txHash now).1,
+      (broadcastSignature cfg s (O.digestOf (vaaOfMsg g.index m).body) (vaaOfMsg g.index m) sig m.txHash now).2, ?_, ?_, ?_⟩
+    · unfold step handleMessage
+      simp only [hP.gs]
+      rw [if_neg (by simpa [vaaOfMsg] using hng)]
+      simp only [hP.db, hsig]
+    · intro b hb; simp [broadcastSignature] at hb
+    · unfold broadcastSignature
+      simp only
+      have hm : hasMsg (pre ++ [Event.message m now]) = true := by simp [hasMsg, isMsg]
+      apply pre_insert hP.gs hP.db
+      · exact hP.sub now
+      · exact hP.recv now
+      · intro a
+        rw [accAddrs_single_none (by rfl)]
+        exact hP.keys now a
+      · rw [hm]; simp
+      · rw [hm]; simp [hP.gs]
+
+/-- With gate set `g`, the observation handler is: rejected → nothing; accepted → record and evaluate quorum. -/
+theorem handleObservation_eq (O : Oracle) {s : PState} {o : Obs} {g : GSet} (hg : gateSet s o.hash = some g) (now : Int) :
+    handleObservation O s o now =
+      if isAcc O g o.hash o = true then
+        obsFinish s o.hash g (recordSig (entryOrFresh s o.hash now) (bytesToAddress o.addr) o.sig)
+      else .ok s [] := by
+  unfold handleObservation isAcc
+  cases hrec : O.recover o.hash o.sig with
+  | none => simp
+  | some signer =>
+    simp only
+    by_cases haddr : bytesToAddress o.addr = signer
+    · rw [if_neg (by simpa using haddr), hg]
+      simp only
+      cases hm : g.keys.contains (bytesToAddress o.addr) with
+      | false => simp
+      | true => simp [haddr]
+    · rw [if_pos (by simpa using haddr)]
+      have : ¬ (some signer = some (bytesToAddress o.addr)) := by
+        intro e; exact haddr (Option.some.inj e).symm
+      simp [this]
+
+/-- An observation for `d` before the publication. Not a trigger: at most recorded, nothing emitted. Trigger: this very
+step publishes the VAA built from `m` with the signatures recorded at this moment, which form a `Valid` list with one
+signature per distinct accepted signer so far. -/
+theorem pre_obs {O : Oracle} (hO : OracleOk O) (cfg : Config) {g : GSet} (hgok : GSetOk g) {m : Msg} {d : Bytes}
+    {pre : List Event} {s : PState} (hP : Pre O g m d pre s) (o : Obs) (now : Int) (ho : o.hash = d) :
+    (¬ Trigger O g d pre (.observation o now) →
+      ∃ s', step O cfg s (.observation o now) = .ok s' [] ∧ Pre O g m d (pre ++ [.observation o now]) s') ∧
+    (Trigger O g d pre (.observation o now) →
+      ∃ s', step O cfg s (.observation o now) = .ok s' [Out.vaa (marshal { vaaOfMsg g.index m with
+          sigs := assemble g.keys (recordSig (entryOrFresh s d now) (bytesToAddress o.addr) o.sig).signatures })] ∧
+        Post d s' ∧
+        C06.Valid (O.recover d)
+          (assemble g.keys (recordSig (entryOrFresh s d now) (bytesToAddress o.addr) o.sig).signatures) g.keys ∧
+        (assemble g.keys (recordSig (entryOrFresh s d now) (bytesToAddress o.addr) o.sig).signatures).length =
+          (acceptedSigners O g d (pre ++ [.observation o now])).length) := by
+  subst ho
+  have hgate := pre_gate hP
+  have hstep : step O cfg s (.observation o now) = handleObservation O s o now := rfl
+  rw [hstep, handleObservation_eq O hgate now]
+  by_cases hacc : isAcc O g o.hash o = true
+  · -- accepted
+    rw [if_pos hacc]
+    have haddr : accAddr O g o.hash (.observation o now) = some (bytesToAddress o.addr) := by
+      simp [accAddr, hacc]
+    have hrec : O.recover o.hash o.sig = some (bytesToAddress o.addr) := ((isAcc_iff _ _ _ _).1 hacc).1
+    have hrecv1 : ∀ p ∈ (recordSig (entryOrFresh s o.hash now) (bytesToAddress o.addr) o.sig).signatures,
+        O.recover o.hash p.2 = some p.1 := by
+      intro p hp
+      rcases mem_alInsert hp with rfl | hp
+      · exact hrec
+      · exact hP.recv now p hp
+    have hkeys1 : ∀ a, ((recordSig (entryOrFresh s o.hash now) (bytesToAddress o.addr) o.sig).signatures.lookup a).isSome = true ↔
+        a ∈ accAddrs O g o.hash (pre ++ [.observation o now]) := by
+      intro a
+      rw [accAddrs_single_some haddr]
+      unfold recordSig
+      simp only
+      rw [lookup_alInsert]
+      by_cases ha : (a == bytesToAddress o.addr) = true
+      · rw [if_pos ha]
+        have : a = bytesToAddress o.addr := by simpa using ha
+        simp [this]
+      · rw [if_neg ha]
+        have hne : a ≠ bytesToAddress o.addr := by simpa using ha
+        rw [hP.keys now a]
+        simp [hne]
+    have hlen1 : (assemble g.keys (recordSig (entryOrFresh s o.hash now) (bytesToAddress o.addr) o.sig).signatures).length =
+        (acceptedSigners O g o.hash (pre ++ [.observation o now])).length := by
+      rw [assemble_length]
+      unfold acceptedSigners
+      congr 1
+      apply List.filter_congr
+      intro a _
+      have := hkeys1 a
+      cases h1 : ((recordSig (entryOrFresh s o.hash now) (bytesToAddress o.addr) o.sig).signatures.lookup a).isSome <;>
+        cases h2 : (accAddrs O g o.hash (pre ++ [.observation o now])).contains a <;> simp_all
+    have hbad : badSigLen g.keys (recordSig (entryOrFresh s o.hash now) (bytesToAddress o.addr) o.sig).signatures = false :=
+      badSigLen_false (fun p hp => hO.recover_len _ _ _ (hrecv1 p hp))
+    have hsub1 : (recordSig (entryOrFresh s o.hash now) (bytesToAddress o.addr) o.sig).submitted = false := hP.sub now
+    have hmsg1 : hasMsg (pre ++ [.observation o now]) = hasMsg pre := by simp [hasMsg, isMsg]
+    have hpre' : Pre O g m o.hash (pre ++ [.observation o now])
+        { s with agg := alInsert o.hash (recordSig (entryOrFresh s o.hash now) (bytesToAddress o.addr) o.sig) s.agg } := by
+      apply pre_insert hP.gs hP.db _ hsub1 hrecv1 hkeys1
+      · rw [hmsg1]; exact hP.our now
+      · rw [hmsg1]; exact hP.snap now
+    unfold obsFinish
+    rw [hbad]
+    simp only [Bool.false_eq_true, if_false]
+    have hour1 : (recordSig (entryOrFresh s o.hash now) (bytesToAddress o.addr) o.sig).ourVAA =
+        if hasMsg pre = true then some (vaaOfMsg g.index m) else none := hP.our now
+    cases hm : hasMsg pre with
+    | false =>
+      rw [hm] at hour1
+      simp only [Bool.false_eq_true, if_false] at hour1
+      rw [hour1]
+      simp only
+      constructor
+      · intro _; exact ⟨_, rfl, hpre'⟩
+      · intro ht; rw [ht.2.1] at hm; cases hm
+    | true =>
+      rw [hm] at hour1
+      simp only [if_true] at hour1
+      rw [hour1]
+      simp only
+      by_cases hq : quorum g.keys.length ≤
+          (assemble g.keys (recordSig (entryOrFresh s o.hash now) (bytesToAddress o.addr) o.sig).signatures).length
+      · have hne : (assemble g.keys (recordSig (entryOrFresh s o.hash now) (bytesToAddress o.addr) o.sig).signatures).length ≠ 0 := by
+          have := quorum_pos g.keys.length; omega
+        rw [if_pos ⟨hq, hsub1⟩, storeSigned_some _ _ (by simpa using hne)]
+        constructor
+        · intro hnt
+          exfalso
+          exact hnt ⟨by simp [haddr], hm, by rw [← hlen1]; exact hq⟩
+        · intro _
+          refine ⟨_, rfl, ?_, assemble_valid _ g hgok _ hrecv1, hlen1⟩
+          refine ⟨_, lookup_alInsert_self _ _ _, rfl, ?_⟩
+          intro p hp
+          exact hO.recover_len _ _ _ (hrecv1 p hp)
+      · rw [if_neg (fun h => hq h.1)]
+        constructor
+        · intro _; exact ⟨_, rfl, hpre'⟩
+        · intro ht; exfalso; apply hq; rw [hlen1]; exact ht.2.2
+  · -- rejected
+    rw [if_neg hacc]
+    have haddr : accAddr O g o.hash (.observation o now) = none := by
+      simp [accAddr, hacc]
+    constructor
+    · intro _
+      refine ⟨s, rfl, hP.gs, hP.db, hP.sub, hP.recv, ?_, ?_, ?_⟩
+      · intro now' a; rw [accAddrs_single_none haddr]; exact hP.keys now' a
+      · intro now'
+        have : hasMsg (pre ++ [.observation o now]) = hasMsg pre := by simp [hasMsg, isMsg]
+        rw [this]; exact hP.our now'
+      · intro now'
+        have : hasMsg (pre ++ [.observation o now]) = hasMsg pre := by simp [hasMsg, isMsg]
+        rw [this]; exact hP.snap now'
+    · intro ht
+      have := ht.1
+      rw [haddr] at this
+      cases this
+
+/-! ## after the publication -/
+
+theorem post_broadcast (cfg : Config) {d : Bytes} {s : PState} (hP : Post d s) (d' : Bytes) (v : Vaa) (sig tx : Bytes)
+    (now : Int) : Post d (broadcastSignature cfg s d' v sig tx now).1 := by
+  obtain ⟨st, hl, hsub, hlen⟩ := hP
+  unfold broadcastSignature
+  simp only
+  unfold Post
+  simp only
+  rw [lookup_alInsert]
+  by_cases hd : (d == d') = true
+  · rw [if_pos hd]
+    have e : d = d' := by simpa using hd
+    subst e
+    unfold entryOrFresh
+    rw [hl]
+    exact ⟨_, rfl, hsub, hlen⟩
+  · rw [if_neg hd]
+    exact ⟨st, hl, hsub, hlen⟩
+
+theorem post_message {O : Oracle} (hO : OracleOk O) (cfg : Config) {d : Bytes} {s : PState} (hP : Post d s)
+    (m : Msg) (now : Int) :
+    ∃ s' outs, step O cfg s (.message m now) = .ok s' outs ∧ (∀ b, Out.vaa b ∉ outs) ∧ Post d s' := by
+  have hstep : step O cfg s (.message m now) = handleMessage O cfg s m now := rfl
+  rw [hstep]
+  have same : ∃ s' outs, Res.ok s [] = .ok s' outs ∧ (∀ b, Out.vaa b ∉ outs) ∧ Post d s' :=
+    ⟨s, [], rfl, by intro b hb; simp at hb, hP⟩
+  unfold handleMessage
+  split
+  · exact same
+  · rename_i g hg
+    have hproceed : ∃ s' outs, (match O.sign (O.digestOf (vaaOfMsg g.index m).body) with
+        | none => Res.panic "sign"
+        | some sig =>
+          let (s', outs) := broadcastSignature cfg s (O.digestOf (vaaOfMsg g.index m).body) (vaaOfMsg g.index m) sig m.txHash now
+          Res.ok s' outs) = .ok s' outs ∧ (∀ b, Out.vaa b ∉ outs) ∧ Post d s' := by
+      have := hO.sign_ok (O.digestOf (vaaOfMsg g.index m).body)
+      cases hs : O.sign (O.digestOf (vaaOfMsg g.index m).body) with
+      | none => simp [hs] at this
+      | some sig =>
+        exact ⟨_, _, rfl, by intro b hb; simp at hb, post_broadcast cfg hP _ _ _ _ _⟩
+    simp only
+    split
+    · exact same
+    · split
+      · split
+        · exact same
+        · split
+          · exact same
+          · exact hproceed
+      · exact hproceed
+
+theorem post_obs {O : Oracle} (hO : OracleOk O) (cfg : Config) {d : Bytes} {s : PState} (hP : Post d s)
+    (o : Obs) (now : Int) (ho : o.hash = d) :
+    ∃ s', step O cfg s (.observation o now) = .ok s' [] ∧ Post d s' := by
+  subst ho
+  have hstep : step O cfg s (.observation o now) = handleObservation O s o now := rfl
+  rw [hstep]
+  obtain ⟨st, hl, hsub, hlen⟩ := hP
+  have same : ∃ s', Res.ok s [] = .ok s' [] ∧ Post o.hash s' := ⟨s, rfl, st, hl, hsub, hlen⟩
+  unfold handleObservation
+  split
+  · exact same
+  · rename_i signer hrec
+    split
+    · exact same
+    · split
+      · exact same
+      · rename_i gs hg
+        split
+        · exact same
+        · have he : entryOrFresh s o.hash now = st := by unfold entryOrFresh; rw [hl]
+          rw [he]
+          have hlen1 : ∀ p ∈ (recordSig st (bytesToAddress o.addr) o.sig).signatures, p.2.length = 65 := by
+            intro p hp
+            rcases mem_alInsert hp with rfl | hp
+            · exact hO.recover_len _ _ _ hrec
+            · exact hlen p hp
+          have hsub1 : (recordSig st (bytesToAddress o.addr) o.sig).submitted = true := hsub
+          unfold obsFinish
+          rw [badSigLen_false hlen1]
+          simp only [Bool.false_eq_true, if_false]
+          split
+          · exact ⟨_, rfl, _, lookup_alInsert_self _ _ _, hsub1, hlen1⟩
+          · rw [if_neg (by rw [hsub1]; simp)]
+            exact ⟨_, rfl, _, lookup_alInsert_self _ _ _, hsub1, hlen1⟩
+
+/-! ## runs -/
+
+def NoVaa (outs : List (List Out)) : Prop := ∀ os ∈ outs, ∀ b, Out.vaa b ∉ os
+
+theorem run_cons_ok {O : Oracle} {cfg : Config} {s s' sf : PState} {e : Event} {es : List Event} {o : List Out}
+    {os : List (List Out)} (h1 : step O cfg s e = .ok s' o) (h2 : run O cfg s' es = .ok (sf, os)) :
+    run O cfg s (e :: es) = .ok (sf, o :: os) := by
+  unfold run
+  rw [h1]
+  simp only [h2]
+
+theorem run_append {O : Oracle} {cfg : Config} : ∀ (es1 : List Event) {s s1 sf : PState} {es2 : List Event}
+    {o1 o2 : List (List Out)}, run O cfg s es1 = .ok (s1, o1) → run O cfg s1 es2 = .ok (sf, o2) →
+    run O cfg s (es1 ++ es2) = .ok (sf, o1 ++ o2) := by
+  intro es1
+  induction es1 with
+  | nil =>
+    intro s s1 sf es2 o1 o2 h1 h2
+    simp [run] at h1
+    obtain ⟨rfl, rfl⟩ := h1
+    simpa using h2
+  | cons e es ih =>
+    intro s s1 sf es2 o1 o2 h1 h2
+    unfold run at h1
+    split at h1
+    · cases h1
+    · rename_i s' o hs
+      split at h1
+      · cases h1
+      · rename_i sf' os hrest
+        simp only [Except.ok.injEq, Prod.mk.injEq] at h1
+        obtain ⟨rfl, rfl⟩ := h1
+        exact run_cons_ok hs (ih hrest h2)
+
+theorem noVaa_cons {o : List Out} {os : List (List Out)} (h1 : ∀ b, Out.vaa b ∉ o) (h2 : NoVaa os) : NoVaa (o :: os) := by
+  intro x hx b
+  simp at hx
+  rcases hx with rfl | hx
+  · exact h1 b
+  · exact h2 x hx b
+
+theorem run_post {O : Oracle} (hO : OracleOk O) (cfg : Config) {m : Msg} {d : Bytes} : ∀ (es : List Event) {s : PState},
+    Post d s → (∀ e ∈ es, EvOk m d e) →
+    ∃ sf outs, run O cfg s es = .ok (sf, outs) ∧ Post d sf ∧ NoVaa outs := by
+  intro es
+  induction es with
+  | nil => intro s hP _; exact ⟨s, [], rfl, hP, by intro x hx; simp at hx⟩
+  | cons e es ih =>
+    intro s hP hev
+    have hes : ∀ e ∈ es, EvOk m d e := fun x hx => hev x (by simp [hx])
+    rcases hev e (by simp) with ⟨now, rfl⟩ | ⟨o, now, rfl, ho⟩
+    · obtain ⟨s', outs, h1, h2, h3⟩ := post_message hO cfg hP m now
+      obtain ⟨sf, os, h4, h5, h6⟩ := ih h3 hes
+      exact ⟨sf, _, run_cons_ok h1 h4, h5, noVaa_cons h2 h6⟩
+    · obtain ⟨s', h1, h3⟩ := post_obs hO cfg hP o now ho
+      obtain ⟨sf, os, h4, h5, h6⟩ := ih h3 hes
+      exact ⟨sf, _, run_cons_ok h1 h4, h5, noVaa_cons (by intro b hb; simp at hb) h6⟩
+
+theorem run_pre {O : Oracle} (hO : OracleOk O) (cfg : Config) {g : GSet} (hgok : GSetOk g) {m : Msg} {d : Bytes}
+    (hd : d = O.digestOf (vaaOfMsg g.index m).body)
+    (hng : ¬ (m.emitter = cfg.govEmitter ∧ m.emitterChain = cfg.govChain)) :
+    ∀ (es pre : List Event) {s : PState}, Pre O g m d pre s → (∀ e ∈ es, EvOk m d e) → NoTrig O g d pre es →
+    ∃ sf outs, run O cfg s es = .ok (sf, outs) ∧ Pre O g m d (pre ++ es) sf ∧ NoVaa outs := by
+  intro es
+  induction es with
+  | nil => intro pre s hP _ _; exact ⟨s, [], rfl, by simpa using hP, by intro x hx; simp at hx⟩
+  | cons e es ih =>
+    intro pre s hP hev hnt
+    have hes : ∀ e ∈ es, EvOk m d e := fun x hx => hev x (by simp [hx])
+    have happ : pre ++ e :: es = (pre ++ [e]) ++ es := by simp
+    rw [happ]
+    rcases hev e (by simp) with ⟨now, rfl⟩ | ⟨o, now, rfl, ho⟩
+    · obtain ⟨s', outs, h1, h2, h3⟩ := pre_message hO cfg hd hng hP now
+      obtain ⟨sf, os, h4, h5, h6⟩ := ih _ h3 hes hnt.2
+      exact ⟨sf, _, run_cons_ok h1 h4, h5, noVaa_cons h2 h6⟩
+    · obtain ⟨s', h1, h3⟩ := (pre_obs hO cfg hgok hP o now ho).1 hnt.1
+      obtain ⟨sf, os, h4, h5, h6⟩ := ih _ h3 hes hnt.2
+      exact ⟨sf, _, run_cons_ok h1 h4, h5, noVaa_cons (by intro b hb; simp at hb) h6⟩
+
+/-- Either no event is a trigger, or there is a first one. -/
+theorem first_trigger (O : Oracle) (g : GSet) (d : Bytes) : ∀ (es pre : List Event),
+    NoTrig O g d pre es ∨
+    ∃ es1 e es2, es = es1 ++ e :: es2 ∧ NoTrig O g d pre es1 ∧ Trigger O g d (pre ++ es1) e := by
+  intro es
+  induction es with
+  | nil => intro pre; exact Or.inl trivial
+  | cons e es ih =>
+    intro pre
+    by_cases ht : Trigger O g d pre e
+    · exact Or.inr ⟨[], e, es, rfl, trivial, by simpa using ht⟩
+    · rcases ih (pre ++ [e]) with h | ⟨es1, e', es2, rfl, hn, ht'⟩
+      · exact Or.inl ⟨ht, h⟩
+      · exact Or.inr ⟨e :: es1, e', es2, rfl, ⟨ht, hn⟩, by simpa using ht'⟩
+
+theorem noTrig_iff (O : Oracle) (g : GSet) (d : Bytes) : ∀ (es pre : List Event),
+    NoTrig O g d pre es ↔ ∀ es1 e es2, es = es1 ++ e :: es2 → ¬ Trigger O g d (pre ++ es1) e := by
+  intro es
+  induction es with
+  | nil =>
+    intro pre
+    constructor
+    · intro _ es1 e es2 h; simp at h
+    · intro _; trivial
+  | cons x xs ih =>
+    intro pre
+    constructor
+    · intro ⟨h1, h2⟩ es1 e es2 h
+      cases es1 with
+      | nil =>
+        simp at h
+        obtain ⟨rfl, rfl⟩ := h
+        simpa using h1
+      | cons y ys =>
+        simp at h
+        obtain ⟨rfl, rfl⟩ := h
+        have := (ih (pre ++ [x])).1 h2 ys e es2 rfl
+        simpa using this
+    · intro h
+      refine ⟨by simpa using h [] x xs rfl, (ih (pre ++ [x])).2 ?_⟩
+      intro es1 e es2 he
+      have := h (x :: es1) e es2 (by simp [he])
+      simpa using this
+
+/-- **The whole run, described.** From a state with no entry for `d`: either no delivery is a trigger, the run ends
+before the publication and emits no VAA; or the first trigger publishes, and nothing before or after it does. -/
+theorem run_describe {O : Oracle} (hO : OracleOk O) (cfg : Config) {g : GSet} (hgok : GSetOk g) {m : Msg} {d : Bytes}
+    (hd : d = O.digestOf (vaaOfMsg g.index m).body)
+    (hng : ¬ (m.emitter = cfg.govEmitter ∧ m.emitterChain = cfg.govChain))
+    {s0 : PState} (hP : Pre O g m d [] s0) (es : List Event) (hev : ∀ e ∈ es, EvOk m d e) :
+    (NoTrig O g d [] es ∧ ∃ sf outs, run O cfg s0 es = .ok (sf, outs) ∧ Pre O g m d es sf ∧ NoVaa outs) ∨
+    (∃ es1 o now es2 s1 outs1 sf outs2,
+      es = es1 ++ Event.observation o now :: es2 ∧ NoTrig O g d [] es1 ∧ Trigger O g d es1 (.observation o now) ∧
+      run O cfg s0 es1 = .ok (s1, outs1) ∧ NoVaa outs1 ∧
+      run O cfg s0 es = .ok (sf, outs1 ++ [Out.vaa (marshal { vaaOfMsg g.index m with
+          sigs := assemble g.keys (recordSig (entryOrFresh s1 d now) (bytesToAddress o.addr) o.sig).signatures })] :: outs2) ∧
+      NoVaa outs2 ∧ Post d sf ∧
+      C06.Valid (O.recover d)
+        (assemble g.keys (recordSig (entryOrFresh s1 d now) (bytesToAddress o.addr) o.sig).signatures) g.keys ∧
+      (assemble g.keys (recordSig (entryOrFresh s1 d now) (bytesToAddress o.addr) o.sig).signatures).length =
+        (acceptedSigners O g d (es1 ++ [.observation o now])).length) := by
+  rcases first_trigger O g d es [] with h | ⟨es1, e, es2, rfl, hn, ht⟩
+  · left
+    obtain ⟨sf, outs, h1, h2, h3⟩ := run_pre hO cfg hgok hd hng es [] hP hev h
+    exact ⟨h, sf, outs, h1, by simpa using h2, h3⟩
+  · right
+    have hev1 : ∀ x ∈ es1, EvOk m d x := fun x hx => hev x (by simp [hx])
+    have hev2 : ∀ x ∈ es2, EvOk m d x := fun x hx => hev x (by simp [hx])
+    simp only [List.nil_append] at ht
+    rcases hev e (by simp) with ⟨now, rfl⟩ | ⟨o, now, rfl, ho⟩
+    · have := ht.1; simp [accAddr] at this
+    · obtain ⟨s1, outs1, r1, p1, n1⟩ := run_pre hO cfg hgok hd hng es1 [] hP hev1 hn
+      simp only [List.nil_append] at p1
+      obtain ⟨s2, st2, post2, hval, hlen⟩ := (pre_obs hO cfg hgok p1 o now ho).2 ht
+      obtain ⟨sf, outs2, r2, post, n2⟩ := run_post hO cfg es2 post2 hev2
+      exact ⟨es1, o, now, es2, s1, outs1, sf, outs2, rfl, hn, ht, r1, n1, run_append es1 r1 (run_cons_ok st2 r2), n2, post,
+        hval, hlen⟩
+
+/-! ## counting and permutations -/
+
+theorem acceptedSigners_length_mono {O : Oracle} {g : GSet} {d : Bytes} {es es' : List Event}
+    (h : ∀ a, a ∈ accAddrs O g d es → a ∈ accAddrs O g d es') :
+    (acceptedSigners O g d es).length ≤ (acceptedSigners O g d es').length := by
+  unfold acceptedSigners
+  rw [← List.countP_eq_length_filter, ← List.countP_eq_length_filter]
+  apply List.countP_mono_left
+  intro a _ ha
+  simp only [List.contains_iff_mem] at ha ⊢
+  exact h a ha
+
+theorem acceptedSigners_nodup {O : Oracle} {g : GSet} (hgok : GSetOk g) (d : Bytes) (es : List Event) :
+    (acceptedSigners O g d es).Nodup := by
+  unfold acceptedSigners
+  exact List.Nodup.sublist List.filter_sublist hgok.1
+
+theorem acceptedSigners_perm {O : Oracle} {g : GSet} {d : Bytes} {es es' : List Event} (h : es.Perm es') :
+    acceptedSigners O g d es = acceptedSigners O g d es' := by
+  apply acceptedSigners_congr
+  intro a
+  exact (List.Perm.filterMap (accAddr O g d) h).mem_iff
+
+theorem hasMsg_iff {es : List Event} : hasMsg es = true ↔ ∃ e ∈ es, isMsg e = true := by
+  simp [hasMsg]
+
+theorem hasMsg_perm {es es' : List Event} (h : es.Perm es') : hasMsg es = hasMsg es' := by
+  rw [Bool.eq_iff_iff, hasMsg_iff, hasMsg_iff]
+  constructor
+  · rintro ⟨e, he, hm⟩; exact ⟨e, h.mem_iff.1 he, hm⟩
+  · rintro ⟨e, he, hm⟩; exact ⟨e, h.mem_iff.2 he, hm⟩
+
+/-- Some accepted observation is delivered after some message event. -/
+def AfterMsg (O : Oracle) (g : GSet) (d : Bytes) (es : List Event) : Prop :=
+  ∃ es1 e es2, es = es1 ++ e :: es2 ∧ hasMsg es1 = true ∧ (accAddr O g d e).isSome = true
+
+theorem last_acc (O : Oracle) (g : GSet) (d : Bytes) : ∀ (es : List Event),
+    (∃ e ∈ es, (accAddr O g d e).isSome = true) →
+    ∃ es1 e es2, es = es1 ++ e :: es2 ∧ (accAddr O g d e).isSome = true ∧ ∀ x ∈ es2, accAddr O g d x = none := by
+  intro es
+  induction es with
+  | nil => rintro ⟨e, he, _⟩; simp at he
+  | cons y ys ih =>
+    intro hex
+    by_cases hys : ∃ e ∈ ys, (accAddr O g d e).isSome = true
+    · obtain ⟨es1, e, es2, rfl, h1, h2⟩ := ih hys
+      exact ⟨y :: es1, e, es2, rfl, h1, h2⟩
+    · obtain ⟨e, he, hacc⟩ := hex
+      simp only [List.mem_cons] at he
+      rcases he with rfl | he
+      · refine ⟨[], e, ys, rfl, hacc, ?_⟩
+        intro x hx
+        cases hx' : accAddr O g d x with
+        | none => rfl
+        | some a => exact absurd ⟨x, hx, by simp [hx']⟩ hys
+      · exact absurd ⟨e, he, hacc⟩ hys
+
+theorem afterMsg_last (O : Oracle) (g : GSet) (d : Bytes) : ∀ (es : List Event), AfterMsg O g d es →
+    ∃ es1 e es2, es = es1 ++ e :: es2 ∧ hasMsg es1 = true ∧ (accAddr O g d e).isSome = true ∧
+      ∀ x ∈ es2, accAddr O g d x = none := by
+  intro es
+  induction es with
+  | nil => rintro ⟨es1, e, es2, h, _⟩; simp at h
+  | cons y ys ih =>
+    intro h
+    by_cases hys : AfterMsg O g d ys
+    · obtain ⟨es1, e, es2, rfl, h1, h2, h3⟩ := ih hys
+      refine ⟨y :: es1, e, es2, rfl, ?_, h2, h3⟩
+      have : hasMsg (y :: es1) = (isMsg y || hasMsg es1) := by simp [hasMsg]
+      rw [this, h1]; simp
+    · obtain ⟨a, x, b, hsplit, hm, hacc⟩ := h
+      cases a with
+      | nil => simp [hasMsg] at hm
+      | cons y' a' =>
+        simp only [List.cons_append, List.cons.injEq] at hsplit
+        obtain ⟨rfl, rfl⟩ := hsplit
+        have hy : isMsg y = true := by
+          have : hasMsg (y :: a') = (isMsg y || hasMsg a') := by simp [hasMsg]
+          rw [this] at hm
+          cases hy : isMsg y with
+          | true => rfl
+          | false =>
+            rw [hy] at hm
+            simp only [Bool.false_or] at hm
+            exact absurd ⟨a', x, b, rfl, hm, hacc⟩ hys
+        obtain ⟨es1, e, es2, he, h1, h2⟩ := last_acc O g d (a' ++ x :: b) ⟨x, by simp, hacc⟩
+        refine ⟨y :: es1, e, es2, by rw [he]; rfl, ?_, h1, h2⟩
+        simp [hasMsg, hy]
+
+theorem accAddrs_eq_nil {O : Oracle} {g : GSet} {d : Bytes} {es : List Event} (h : ∀ x ∈ es, accAddr O g d x = none) :
+    accAddrs O g d es = [] := by
+  unfold accAddrs
+  rw [List.filterMap_eq_nil_iff]
+  exact h
+
+/-- A trigger somewhere in `es` implies: a message is in `es` and quorum many distinct accepted signers are in `es`. -/
+theorem trigger_quorum {O : Oracle} {g : GSet} {d : Bytes} {es1 es2 : List Event} {e : Event}
+    (ht : Trigger O g d es1 e) :
+    hasMsg (es1 ++ e :: es2) = true ∧ quorum g.keys.length ≤ (acceptedSigners O g d (es1 ++ e :: es2)).length := by
+  constructor
+  · rw [hasMsg_append, ht.2.1]; simp
+  · refine Nat.le_trans ht.2.2 (acceptedSigners_length_mono ?_)
+    intro a ha
+    have : es1 ++ e :: es2 = (es1 ++ [e]) ++ es2 := by simp
+    rw [this, accAddrs_append]
+    exact List.mem_append_left _ ha
+
+/-- Conversely, when some accepted observation comes after the message, the last accepted observation is a trigger as
+soon as `es` holds quorum many distinct accepted signers. -/
+theorem quorum_trigger {O : Oracle} {g : GSet} {d : Bytes} {es : List Event} (hafter : AfterMsg O g d es)
+    (hq : quorum g.keys.length ≤ (acceptedSigners O g d es).length) :
+    ∃ es1 e es2, es = es1 ++ e :: es2 ∧ Trigger O g d es1 e := by
+  obtain ⟨es1, e, es2, rfl, h1, h2, h3⟩ := afterMsg_last O g d es hafter
+  refine ⟨es1, e, es2, rfl, h2, h1, ?_⟩
+  have : acceptedSigners O g d (es1 ++ e :: es2) = acceptedSigners O g d (es1 ++ [e]) := by
+    apply acceptedSigners_congr
+    intro a
+    have e1 : es1 ++ e :: es2 = (es1 ++ [e]) ++ es2 := by simp
+    rw [e1, accAddrs_append, accAddrs_eq_nil h3, List.append_nil]
+  rw [← this]; exact hq
+
+/-! ## counting the published VAAs of a run -/
+
+/-- Number of `SignedVAAWithQuorum` broadcasts in the outputs of a run. -/
+def vaaCount (outs : List (List Out)) : Nat := (outs.flatten.filter isVaaOut).length
+
+theorem vaaCount_noVaa {outs : List (List Out)} (h : NoVaa outs) : vaaCount outs = 0 := by
+  unfold vaaCount
+  rw [List.length_eq_zero_iff, List.filter_eq_nil_iff]
+  intro x hx
+  rw [List.mem_flatten] at hx
+  obtain ⟨os, hos, hx⟩ := hx
+  cases x with
+  | vaa b => exact absurd hx (h os hos b)
+  | _ => simp [isVaaOut]
+
+theorem vaaCount_shape {o1 o2 : List (List Out)} (b : Bytes) (h1 : NoVaa o1) (h2 : NoVaa o2) :
+    vaaCount (o1 ++ [Out.vaa b] :: o2) = 1 := by
+  have a1 := vaaCount_noVaa h1
+  have a2 := vaaCount_noVaa h2
+  unfold vaaCount at *
+  simp only [List.flatten_append, List.flatten_cons, List.filter_append, List.length_append]
+  rw [a1, a2]
+  simp [List.filter, isVaaOut]
+
+theorem mem_shape {o1 o2 : List (List Out)} {b b' : Bytes} {os : List Out} (h1 : NoVaa o1) (h2 : NoVaa o2)
+    (hos : os ∈ o1 ++ [Out.vaa b] :: o2) (hb : Out.vaa b' ∈ os) : os = [Out.vaa b] ∧ b' = b := by
+  simp only [List.mem_append, List.mem_cons] at hos
+  rcases hos with hos | rfl | hos
+  · exact absurd hb (h1 os hos b')
+  · simp at hb; exact ⟨rfl, hb⟩
+  · exact absurd hb (h2 os hos b')
+
 end Whv.Proc
